@@ -58,3 +58,35 @@ extern "C" void h_rans_tab(void) {
   if (ok) verif_assert(in.db.decoded_size() <= (int64_t)in.n, "no read past the end");
   verif_reach();
 }
+
+// ---- crease-flag side tables of the constrained multi-parallelogram decoder: bounded by the declared number of corners
+#include "draco/compression/attributes/prediction_schemes/mesh_prediction_scheme_constrained_multi_parallelogram_decoder.h"
+#include "draco/compression/attributes/prediction_schemes/prediction_scheme_wrap_decoding_transform.h"
+struct CountTable {   // only num_corners() is used by DecodePredictionData; the navigation API exists for the (unreached) predictor
+  int nc; int num_corners() const { return nc; }
+  CornerIndex SwingLeft(CornerIndex c) const { return c; } CornerIndex SwingRight(CornerIndex c) const { return c; }
+  CornerIndex Opposite(CornerIndex c) const { return c; } CornerIndex Next(CornerIndex c) const { return c; }
+  CornerIndex Previous(CornerIndex c) const { return c; } VertexIndex Vertex(CornerIndex) const { return VertexIndex(0); }
+};
+struct CountMD {
+  typedef CountTable CornerTable;
+  const CountTable *t;
+  const CountTable *corner_table() const { return t; }
+  const std::vector<int32_t> *vertex_to_data_map() const { return nullptr; }
+  const std::vector<CornerIndex> *data_to_corner_map() const { return nullptr; }
+  bool IsInitialized() const { return true; }
+};
+#ifndef MAXCORNERS
+#define MAXCORNERS 3
+#endif
+extern "C" void h_cmpgram_flags(void) {
+  In in; in.init();
+  CountTable ct; ct.nc = nondet_i32(); verif_assume(ct.nc >= 0 && ct.nc <= MAXCORNERS);
+  verif_input_len = in.n + (uint64_t)ct.nc;       // stream length + declared number of corners
+  CountMD md{&ct};
+  PredictionSchemeWrapDecodingTransform<int32_t> tr;
+  MeshPredictionSchemeConstrainedMultiParallelogramDecoder<int32_t, PredictionSchemeWrapDecodingTransform<int32_t>, CountMD> dec(nullptr, tr, md);
+  const bool ok = dec.DecodePredictionData(&in.db);
+  if (ok) verif_assert(in.db.decoded_size() <= (int64_t)in.n, "no read past the end");
+  verif_reach();
+}
